@@ -110,6 +110,11 @@ class SemiStrictBool:
 
 
 def validate_binary(value: Any) -> bytearray:
+    if isinstance(value, (bytes, bytearray)):
+        # already decoded (e.g. when a dumped model is validated again)
+        return value
+    if not isinstance(value, str):
+        raise ValueError("Binary value not valid")
     try:
         value = b64decode(value)
     except binascii.Error:
